@@ -4,10 +4,15 @@
     dry-run contract (emit stage records through append_jsonl, stash _dryrun_* artefacts, return before apply);
     everything else is real (compute wrapper, LogMux capture, read-only snapshot, staging with back-pressure,
     ordered commit, apply_changes with real snapshot writes).  Reference = the sequential loop.
+    The stub's logging is a generated PROGRAM over live dicts (a record may be logged again, updated after it was
+    logged, shared by the agents of a batch, built from the ctx the compute phase is given): the sequential loop
+    serialises a line when it is logged, the driver at commit time.  With one of the three documented gates closed
+    the driver is the plain loop (whole turns, every task) and must equal the reference exactly.
 (b) real stage pipeline through the driver vs N sequential run_turn calls on an equal world.
 """
 from __future__ import annotations
 
+import contextlib
 import copy
 import json
 import os
@@ -19,43 +24,160 @@ from harness.runner import Sub, Violation, run_hypothesis, digest
 from harness import world, observe
 
 LEVEL = "exploration"
-RULE = ("(a) Hypothesis-generated batches of 1-6 agents with arbitrary graph-set overlap (incl. empty sets), task order, "
-        "worker limits 2-8, per-agent log payloads (known and unknown streams, several records per stream, unicode, 10 KB "
-        "strings), approved deltas and dialogue, staging byte limits from 1 upward (ladder through the record-size "
-        "estimates); non-trivial = >=2 agents computed and >=1 back-pressure flush. (b) 2-4 agents with disjoint graphs "
-        "through the real pipeline. Distinct = digest of the batch (incl. limit).")
-ASSUMPTIONS = ["(a) the stub follows the dry-run contract the repo's own identity/race tests use",
+RULE = ("(a) Hypothesis-generated batches of 1-9 tasks (two agent-id pools; task order permuted against id order; an agent "
+        "unknown to the state; agents listed two or three times, with and without graphs), graph sets random / pairwise disjoint / chained / one "
+        "overlapping pair, resolved from graphs_by_agent, agents, both or mixed; worker limits 2-16 and the three documented "
+        "gates closed (enabled, agents, max_workers 0/1 => plain sequential loop); per-task LOG PROGRAMS instead of fixed "
+        "records: fresh records, the same live dict logged again (unchanged, after top-level set/del or after an in-place "
+        "edit of a nested list/dict), a dict shared by all "
+        "agents of the batch, records built from the ctx the compute phase sees (turn, agent, clock, seed, slice, cfg), four "
+        "logging entry points (incl. logmux.write_or_buffer), feature_guard, known/unknown/identity/non-identity streams, unicode, 600 B / 10 KB strings; "
+        "CI=true, unset and '1'; a compute phase that raises midway; approved deltas (incl. none), dialogue, initial "
+        "version_etag, snapshot cadence; staging byte limits from 1 upward (fixed ladder + limits derived from the record-size "
+        "estimates of the case: e-1/e/e+1, midpoints, cumulative sums); non-trivial = >=2 tasks computed and >=1 "
+        "back-pressure flush (counted on the real stager). (b) 2-4 agents with disjoint graphs through the real pipeline. "
+        "Distinct = digest of the batch (incl. limit).")
+ASSUMPTIONS = ["(a) the stub follows the dry-run contract the repo's own identity/race tests use; it may keep and update its "
+               "own dicts after logging them (top-level set/del and in-place edits of nested lists/dicts), through any of the "
+               "four logging entry points incl. logmux.write_or_buffer",
                "store double is recording and all-or-nothing; apply_changes, snapshots, staging, LogMux are the real code",
-               "per-file byte equality and line order (the property speaks of on-disk log lines per stream)"]
+               "per-file byte equality and line order (the property speaks of on-disk log lines per stream)",
+               "every turn of the reference applies under its own agent ctx: snapshots go to state_<agent>.json and apply.jsonl "
+               "names that file, with the gates open (batch commit) and closed (plain loop) alike",
+               "selection is per task: a second task of an agent overlaps its first unless the agent has no graphs",
+               "when a compute phase raises, the driver must raise the same error, compute nothing after it and leave at most "
+               "a per-file prefix of the sequential loop's lines (the sequential loop itself commits the earlier turns)"]
 
 STREAMS = ["t1.jsonl", "t2.jsonl", "t3_plan.jsonl", "t3_dialogue.jsonl", "t4.jsonl", "health.jsonl", "turn.jsonl",
-           "scheduler.jsonl", "custom.jsonl", "zz_unknown.jsonl"]
+           "scheduler.jsonl", "custom.jsonl", "zz_unknown.jsonl", "gel.jsonl", "t3_reflection.jsonl"]
 AGENTS = ["A", "B", "C", "D", "E", "F"]
+AGENTS2 = ["a10", "a9", "B", "é", "b", "_x"]  # id order != any natural task order; case / unicode
 GRAPHS = ["G1", "G2", "G3", "G4", "G5"]
+KEYS = ["msg", "n", "ms", "now", "payload", "agent", "turn", "ключ", "durations_ms", "yielded", "slice_idx"]
 
-_VAL = st.one_of(st.integers(-5, 5), st.sampled_from(["x", "héllo wörld", "", "y" * 100, "z" * 10000, None, True, 1.5]),
+@contextlib.contextmanager
+def _sandbox():
+    """world.sandbox on tmpfs when there is one (every snapshot write fsyncs; the disk is shared with other jobs)."""
+    old = os.environ.get("VERIF_TMP")
+    if not old and os.path.isdir("/dev/shm") and os.access("/dev/shm", os.W_OK):
+        os.environ["VERIF_TMP"] = "/dev/shm"
+    try:
+        with world.sandbox() as root:
+            yield root
+    finally:
+        if old is None:
+            os.environ.pop("VERIF_TMP", None)
+        else:
+            os.environ["VERIF_TMP"] = old
+
+
+_VAL = st.one_of(st.integers(-5, 5), st.sampled_from(["x", "héllo wörld", "", "y" * 100, "w" * 600, "z" * 10000, None, True, False, 1.5]),
                  st.lists(st.integers(0, 3), max_size=3), st.dictionaries(st.sampled_from(["k", "ü"]), st.integers(0, 2), max_size=2))
-_REC = st.dictionaries(st.sampled_from(["msg", "n", "ms", "now", "payload", "agent", "turn", "ключ"]), _VAL, min_size=1, max_size=4)
+_REC = st.dictionaries(st.sampled_from(KEYS), _VAL, min_size=1, max_size=4)
 _DELTA = st.fixed_dictionaries({"k": st.sampled_from(["node", "edge"]), "id": st.sampled_from(["n:a", "n:b", "e:a|r|b", "n:é"]),
                                 "v": st.sampled_from([0.1, -0.2, 0.3])})
+_LADDER = [1, 2, 10, 40, 80, 150, 300, 1000, 10500, 25000, 10 ** 6, None]
+
+
+@st.composite
+def programs(draw):
+    """A compute phase's logging behaviour as a small program over live dicts ('a', 'b' local to the turn, 'g' shared by
+    the whole batch): ["new", slot, rec] / ["log", stream, slot, entry, feature_guard] / ["set", slot, key, val] /
+    ["del", slot, key] / ["nest", slot, key] (in-place edit of a list/dict nested in the record) / ["ctx", stream, entry]."""
+    entries = ["io", "io", "orch", "hook", "mux"]
+    entry, stream = st.sampled_from(entries), st.sampled_from(STREAMS)
+    slot = st.sampled_from(["a", "a", "a", "b", "g"])
+    fg = st.sampled_from([None] * 8 + [True, False])
+    muts = ["set", "set", "del", "nest", "nest"]
+    ops = []
+    for _ in range(draw(st.integers(0, 6))):
+        kind = draw(st.sampled_from(["fresh", "fresh", "relog", "mut", "mut", "ctx"]))
+        if kind == "fresh":
+            s = draw(slot)
+            ops.append(["new", s, draw(_REC)])
+            ops.append(["log", draw(stream), s, draw(entry), draw(fg)])
+        elif kind == "relog":
+            ops.append(["log", draw(stream), draw(slot), draw(entry), draw(fg)])
+        elif kind == "mut":
+            s, m = draw(slot), draw(st.sampled_from(muts))
+            if m == "set":
+                ops.append(["set", s, draw(st.sampled_from(KEYS)), draw(_VAL)])
+            else:
+                ops.append([m, s, draw(st.sampled_from(KEYS))])
+            ops.append(["log", draw(stream), s, draw(entry), draw(fg)])
+        else:
+            ops.append(["ctx", draw(stream), draw(entry)])
+    return ops
+
+
+def _gsets(draw, agents):
+    mode = draw(st.sampled_from(["random", "random", "disjoint", "disjoint", "chain", "onepair"]))
+    if mode == "random":
+        return mode, {a: sorted(draw(st.sets(st.sampled_from(GRAPHS), max_size=3))) for a in agents}
+    g = {a: [f"P{i}"] + ([f"Q{i}"] if draw(st.booleans()) else []) for i, a in enumerate(agents)}
+    if mode == "disjoint":
+        for a in agents:
+            if draw(st.sampled_from([False] * 5 + [True])):
+                g[a] = []
+    elif mode == "chain":
+        for i in range(len(agents) - 1):
+            g[agents[i]].append(f"S{i}")
+            g[agents[i + 1]].append(f"S{i}")
+    elif len(agents) >= 2:
+        x, y = draw(st.lists(st.sampled_from(agents), min_size=2, max_size=2, unique=True))
+        g[x].append("S")
+        g[y].append("S")
+    return mode, {a: sorted(v) for a, v in g.items()}
 
 
 @st.composite
 def batches(draw):
     n = draw(st.integers(1, 6))
-    agents = draw(st.lists(st.sampled_from(AGENTS), min_size=n, max_size=n, unique=True))
-    gsets = {a: sorted(draw(st.sets(st.sampled_from(GRAPHS), max_size=3))) for a in agents}
-    extra = draw(st.sampled_from([[], ["Z"]]))  # an agent unknown to graphs_by_agent
-    tasks = [(a, draw(st.sampled_from(["hi", "yo", "héllo", ""]))) for a in draw(st.permutations(agents + extra))]
-    payloads = {}
-    for a, _ in tasks:
-        logs = [(draw(st.sampled_from(STREAMS)), draw(_REC)) for _ in range(draw(st.integers(0, 6)))]
-        payloads[a] = {"logs": logs, "deltas": draw(st.lists(_DELTA, max_size=3, unique_by=lambda d: (d["k"], d["id"]))),
-                       "dialogue": draw(st.sampled_from(["ok", "", "dry: ünï", "a b c"]))}
-    limit = draw(st.sampled_from([1, 2, 10, 40, 80, 150, 300, 1000, 10500, 25000, 10 ** 6, None]))
-    return {"agents": agents, "gsets": gsets, "tasks": tasks, "payloads": payloads, "limit": limit,
-            "workers": draw(st.sampled_from([2, 3, 4, 8])), "turn_id": draw(st.sampled_from([1, 7, 99])),
-            "every": draw(st.sampled_from([1, 2])), "shape": draw(st.sampled_from(["graphs_by_agent", "agents"]))}
+    agents = draw(st.lists(st.sampled_from(draw(st.sampled_from([AGENTS, AGENTS, AGENTS2]))), min_size=n, max_size=n, unique=True))
+    gmode, gsets = _gsets(draw, agents)
+    extra = draw(st.sampled_from([[], ["Z"]]))  # an agent unknown to the state
+    order = list(draw(st.permutations(agents + extra)))
+    workers = draw(st.sampled_from([2, 2, 3, 4, 5, 6, 8, 16]))
+    # a second (third) task for an agent: it overlaps the first unless the agent has no graphs; selection is per TASK
+    for _ in range(draw(st.sampled_from([0, 0, 1, 1, 2]))):
+        order.insert(draw(st.integers(0, len(order))), draw(st.sampled_from(order)))
+    tasks = [(a, draw(st.sampled_from(["hi", "yo", "héllo", ""]))) for a in order]
+    progs = []
+    for _ in tasks:
+        ops = draw(programs())
+        progs.append({"ops": ops, "deltas": draw(st.lists(_DELTA, max_size=3, unique_by=lambda d: (d["k"], d["id"]))),
+                      "dialogue": draw(st.sampled_from(["ok", "", "dry: ünï", "a b c"])), "fail": None})
+    if draw(st.sampled_from([False] * 7 + [True])):
+        p = draw(st.sampled_from(progs))
+        p["fail"] = draw(st.integers(0, len(p["ops"])))
+    case = {"agents": agents, "gsets": gsets, "gmode": gmode, "tasks": tasks, "progs": progs, "workers": workers,
+            "turn_id": draw(st.sampled_from([1, 7, 99, 0, 12])), "every": draw(st.sampled_from([1, 2, 3])),
+            "shape": draw(st.sampled_from(["graphs_by_agent", "agents", "both", "mixed"])),
+            "ci": draw(st.sampled_from(["true", "true", None, "1"])),
+            "gate": draw(st.sampled_from([None] * 8 + ["enabled", "agents", "mw1", "mw0"])),
+            "etag": draw(st.sampled_from(["3", "3", "0", None, "abc"]))}
+    if case["shape"] == "mixed":
+        case["where"] = {a: draw(st.sampled_from(["agents", "graphs_by_agent"])) for a in agents}
+    if draw(st.booleans()):
+        case["seed"] = draw(st.sampled_from([0, 7]))
+    if draw(st.booleans()):
+        case["slice_idx"] = draw(st.sampled_from([0, 2]))
+    ests = _simulate_estimates(case)
+    if ests and draw(st.booleans()):
+        cands, cum = set(), 0
+        uniq = sorted(set(ests))
+        for e in uniq:
+            cands.update([e - 1, e, e + 1])
+        for x, y in zip(uniq, uniq[1:]):
+            cands.add((x + y) // 2)
+        for e in ests:
+            cum += e
+            cands.update([cum - 1, cum, cum + 1])
+        case["limit"] = draw(st.sampled_from(sorted(c for c in cands if c >= 1)))
+        case["limit_kind"] = "derived"
+    else:
+        case["limit"] = draw(st.sampled_from(_LADDER))
+    return case
 
 
 class RecStore:
@@ -72,69 +194,225 @@ def _pd(d):
     return ProposedDelta(target_kind=d["k"], target_id=d["id"], attr="weight", delta=d["v"])
 
 
+def _gate_off(case):
+    return case.get("gate") is not None
+
+
+def _prog(case, i):
+    """Program of task i (new format) or the fixed records of its agent (cases saved before programs existed)."""
+    if "progs" in case:
+        return case["progs"][i]
+    p = case["payloads"][case["tasks"][i][0]]
+    ops = []
+    for stream, rec_ in p["logs"]:
+        ops += [["new", "a", rec_], ["log", stream, "a", "io", None]]
+    return {"ops": ops, "deltas": p["deltas"], "dialogue": p["dialogue"], "fail": None}
+
+
 def ref_selection(case):
+    """Indices of the tasks a batch computes: greedy pairwise-disjoint selection in task order, capped by the worker limit
+    (all tasks when a gate is closed: the plain loop)."""
+    if _gate_off(case):
+        return list(range(len(case["tasks"])))
     picked, used = [], set()
-    for a, _ in case["tasks"]:
+    for i, (a, _) in enumerate(case["tasks"]):
         if len(picked) >= max(1, case["workers"]):
             break
         g = set(case["gsets"].get(a, []))
         if used.isdisjoint(g):
-            picked.append(a)
+            picked.append(i)
             used |= g
     return picked
 
 
 def _mk_state(case):
-    st_ = {"store": RecStore(), "version_etag": "3", "_boot_loaded": True}
-    if case["shape"] == "graphs_by_agent":
-        st_["graphs_by_agent"] = {a: list(g) for a, g in case["gsets"].items()}
-    else:
-        st_["agents"] = {a: {"graphs": list(g)} for a, g in case["gsets"].items()}
+    st_ = {"store": RecStore(), "_boot_loaded": True}
+    if case.get("etag", "3") is not None:
+        st_["version_etag"] = case.get("etag", "3")
+    shape = case["shape"]
+    gba = {a: list(g) for a, g in case["gsets"].items() if shape in ("graphs_by_agent", "both") or
+           (shape == "mixed" and case["where"][a] == "graphs_by_agent")}
+    ags = {a: {"graphs": list(g)} for a, g in case["gsets"].items() if shape in ("agents", "both") or
+           (shape == "mixed" and case["where"][a] == "agents")}
+    if shape != "agents":
+        st_["graphs_by_agent"] = gba
+    if shape != "graphs_by_agent":
+        st_["agents"] = ags
     return st_
 
 
 def _cfg(root, case):
-    return world.validated_cfg({"perf": {"enabled": True, "parallel": {"enabled": True, "agents": True, "max_workers": case["workers"]}},
+    par = {"enabled": True, "agents": True, "max_workers": case["workers"]}
+    gate = case.get("gate")
+    if gate in ("enabled", "agents"):
+        par[gate] = False
+    elif gate in ("mw1", "mw0"):
+        par["max_workers"] = int(gate[2:])
+    return world.validated_cfg({"perf": {"enabled": True, "parallel": par},
                                 "t4": {"snapshot_dir": os.path.join(root, "snap"), "snapshot_every_n_turns": case["every"]}})
 
 
-def _est(name, payload):
-    from clematis.engine.util.io_logging import normalize_for_identity
-    p = normalize_for_identity(name, payload)
-    return sum(len(str(k)) + len(str(v)) for k, v in p.items()) + 2
+def _ctx(cfg, case, agent):
+    extra = {k: case[k] for k in ("seed", "slice_idx") if k in case}
+    return world.make_ctx(cfg, agent=agent, turn_id=case["turn_id"], **extra)
+
+
+def _rough_est(rec_):
+    return sum(len(str(k)) + len(str(v)) for k, v in rec_.items()) + 2
+
+
+def _simulate_estimates(case):
+    """Approximate stager estimates of the records the selected tasks log, in order (generation aid only)."""
+    out, glob = [], {}
+    for i in ref_selection(case):
+        local = {}
+        for op in case["progs"][i]["ops"]:
+            tbl = glob if op[1] == "g" else local
+            if op[0] == "new":
+                tbl[op[1]] = dict(op[2])
+            elif op[0] == "set":
+                tbl.setdefault(op[1], {})[op[2]] = op[3]
+            elif op[0] == "del":
+                tbl.setdefault(op[1], {}).pop(op[2], None)
+            elif op[0] == "log" and op[4] is not False:
+                out.append(_rough_est((glob if op[2] == "g" else local).get(op[2], {})))
+            elif op[0] == "ctx":
+                out.append(130)
+        out.append(110)  # the apply record
+    return out
+
+
+def _entry(name):
+    if name == "io":
+        from clematis.io.log import append_jsonl
+        return append_jsonl
+    if name == "orch":  # what core.run_turn's stages call
+        import clematis.engine.orchestrator as orch
+        return orch.append_jsonl
+    if name == "hook":  # the public production hook
+        from clematis.engine.orchestrator.logging import append_jsonl
+        return append_jsonl
+    if name == "mux":
+        from clematis.engine.util.logmux import write_or_buffer
+        return write_or_buffer
+    raise RuntimeError(f"harness: unknown logging entry {name}")
+
+
+class ComputeBoom(RuntimeError):
+    pass
+
+
+def _run_prog(prog, ctx, glob, idx):
+    """Execute the logging program of one compute phase against live dicts (the sequential loop serialises every line at
+    the moment it is logged; the driver must put the same lines on disk)."""
+    local = {}
+    ops = prog["ops"]
+    for j, op in enumerate(ops):
+        if prog.get("fail") == j:
+            raise ComputeBoom(f"boom:{idx}")
+        kind = op[0]
+        if kind == "ctx":
+            cfg = ctx.cfg
+            _entry(op[2])(op[1], {"turn": ctx.turn_id, "agent": ctx.agent_id, "clock": getattr(ctx, "now", None),
+                                  "clock_ms": getattr(ctx, "now_ms", None), "seed": getattr(ctx, "seed", None),
+                                  "slice": getattr(ctx, "slice_idx", None),
+                                  "mw": cfg["perf"]["parallel"].get("max_workers"),
+                                  "every": ctx.config["t4"]["snapshot_every_n_turns"]})
+            continue
+        slot = op[2] if kind == "log" else op[1]
+        tbl = glob if slot == "g" else local
+        if kind == "new":
+            tbl[slot] = copy.deepcopy(op[2])
+        elif kind == "set":
+            tbl.setdefault(slot, {})[op[2]] = copy.deepcopy(op[3])
+        elif kind == "del":
+            tbl.setdefault(slot, {}).pop(op[2], None)
+        elif kind == "nest":
+            d = tbl.setdefault(slot, {})
+            v = d.get(op[2])
+            if isinstance(v, list):
+                v.append(9)
+            elif isinstance(v, dict):
+                v["n"] = v.get("n", 0) + 1
+            else:
+                d[op[2]] = [9]
+        elif kind == "log":
+            d = tbl.setdefault(slot, {})
+            if op[3] == "io" and op[4] is not None:
+                _entry("io")(op[1], d, feature_guard=op[4])
+            else:
+                _entry(op[3])(op[1], d)
+        else:
+            raise RuntimeError(f"harness: unknown op {op!r}")
+    if prog.get("fail") is not None and prog["fail"] >= len(ops):
+        raise ComputeBoom(f"boom:{idx}")
+
+
+def _seq_turn(case, idx, ctx_ops, ctx_apply, state, glob):
+    """One turn of the sequential loop: its records, apply through the real apply_changes, its apply record."""
+    from clematis.engine.apply import apply_changes
+    from clematis.io.log import append_jsonl
+
+    p = _prog(case, idx)
+    _run_prog(p, ctx_ops, glob, idx)
+    t4 = SNS(approved_deltas=[_pd(d) for d in p["deltas"]], rejected_ops=[], reasons=[], metrics={})
+    ap = apply_changes(ctx_apply, state, t4)
+    append_jsonl("apply.jsonl", {"turn": case["turn_id"], "agent": case["tasks"][idx][0], "applied": ap.applied, "clamps": ap.clamps,
+                                 "version_etag": ap.version_etag, "snapshot": ap.snapshot_path,
+                                 "cache_invalidations": int((ap.metrics or {}).get("cache_invalidations", 0)), "ms": 0.0})
+    return p["dialogue"]
 
 
 def run_driver(case, root):
     import clematis.engine.orchestrator as orch
     import clematis.engine.orchestrator.core as core
     import clematis.engine.util.io_logging as iol
-    from clematis.io.log import append_jsonl
 
-    computed = []
+    obs = {"computed": [], "dry": [], "live": [], "bad": [], "drains": []}
+    pending = list(range(len(case["tasks"])))
+    glob = {}
+    cfg = _cfg(root, case)
+    ctx = _ctx(cfg, case, "driver")
+    state = _mk_state(case)
 
-    def stub(self, ctx, state, text):
-        aid = getattr(ctx, "agent_id", "?")
-        if not getattr(ctx, "_dry_run_until_t4", False):
-            raise AssertionError("driver called the turn function outside the dry-run contract")
-        computed.append(aid)
-        p = case["payloads"][aid]
-        for stream, rec_ in p["logs"]:
-            append_jsonl(stream, copy.deepcopy(rec_))
-        ctx._dryrun_t4 = SNS(approved_deltas=[_pd(d) for d in p["deltas"]])
-        ctx._dryrun_utter = p["dialogue"]
-        ctx._dryrun_t1 = {"graphs_touched": list(case["gsets"].get(aid, []))}
-        ctx._dryrun_t2 = {"k_returned": 0, "k_used": 0}
+    def stub(self, sctx, sstate, text):
+        aid = getattr(sctx, "agent_id", "?")
+        idx = next((i for i in pending if tuple(case["tasks"][i]) == (aid, text)), None)
+        if idx is None:
+            obs["bad"].append((aid, text))
+            raise AssertionError("turn function called for a task that is not (or no longer) in the batch")
+        pending.remove(idx)
+        dry = bool(getattr(sctx, "_dry_run_until_t4", False))
+        obs["computed"].append(idx)
+        obs["dry"].append(dry)
+        obs["live"].append(sstate is state)
+        p = _prog(case, idx)
+        if not dry:  # plain loop: the turn function does the whole turn on the state it is given
+            line = _seq_turn(case, idx, sctx, sctx, sstate, glob)
+            return SNS(line=line, events=[])
+        _run_prog(p, sctx, glob, idx)
+        sctx._dryrun_t4 = SNS(approved_deltas=[_pd(d) for d in p["deltas"]])
+        sctx._dryrun_utter = p["dialogue"]
+        sctx._dryrun_t1 = {"graphs_touched": list(case["gsets"].get(aid, []))}
+        sctx._dryrun_t2 = {"k_returned": 0, "k_used": 0}
         return SNS(line=p["dialogue"], events=[])
 
-    cfg = _cfg(root, case)
-    ctx = world.make_ctx(cfg, agent="driver", turn_id=case["turn_id"])
-    state = _mk_state(case)
+    def staging():
+        s = iol.enable_staging() if case["limit"] is None else iol.enable_staging(byte_limit=case["limit"])
+        inner = s.drain_sorted
+
+        def counted():
+            out = inner()
+            obs["drains"].append(len(out))
+            return out
+        s.drain_sorted = counted  # observation only: how many back-pressure flushes the real stager did
+        return s
+
     orig_rt = core.Orchestrator.run_turn
     had = "enable_staging" in vars(orch)
     orig_es = vars(orch).get("enable_staging")
     core.Orchestrator.run_turn = stub
-    if case["limit"] is not None:
-        orch.enable_staging = lambda: iol.enable_staging(byte_limit=case["limit"])
+    orch.enable_staging = staging
     try:
         results = orch._run_agents_parallel_batch(ctx, state, [tuple(t) for t in case["tasks"]])
         exc = None
@@ -146,89 +424,170 @@ def run_driver(case, root):
             orch.enable_staging = orig_es
         else:
             orch.enable_staging = iol.enable_staging
-    staging_left_on = iol.staging_enabled()
+    obs["left_on"] = iol.staging_enabled()
     iol.disable_staging()
-    return results, exc, state, computed, staging_left_on
+    return results, exc, state, obs
 
 
 def run_reference(case, root):
-    """The sequential loop: for each selected agent in task order: its records, apply, its apply record."""
-    from clematis.engine.apply import apply_changes
-    from clematis.io.log import append_jsonl
-
+    """The sequential loop over the selected tasks, in task order."""
     cfg = _cfg(root, case)
-    ctx = world.make_ctx(cfg, agent="driver", turn_id=case["turn_id"])
     state = _mk_state(case)
     sel = ref_selection(case)
-    lines = []
-    for a, _ in case["tasks"]:
-        if a not in sel:
-            continue
-        p = case["payloads"][a]
-        for stream, rec_ in p["logs"]:
-            append_jsonl(stream, copy.deepcopy(rec_))
-        t4 = SNS(approved_deltas=[_pd(d) for d in p["deltas"]], rejected_ops=[], reasons=[], metrics={})
-        ap = apply_changes(ctx, state, t4)
-        append_jsonl("apply.jsonl", {"turn": case["turn_id"], "agent": a, "applied": ap.applied, "clamps": ap.clamps,
-                                     "version_etag": ap.version_etag, "snapshot": ap.snapshot_path,
-                                     "cache_invalidations": int((ap.metrics or {}).get("cache_invalidations", 0)), "ms": 0.0})
-        lines.append(p["dialogue"])
-    return lines, state, sel
+    lines, glob, done, exc = [], {}, [], None
+    for i in sel:
+        own = _ctx(cfg, case, str(case["tasks"][i][0]))
+        done.append(i)
+        try:
+            # every turn of the sequential loop runs (and applies, snapshots to state_<agent>.json) under its own agent ctx
+            lines.append(_seq_turn(case, i, own, own, state, glob))
+        except ComputeBoom as e:
+            exc = e
+            break
+    return lines, state, done, exc
+
+
+class _ci_env:
+    """CI as the case wants it (absent key: leave the environment alone, e.g. cases saved before CI was varied)."""
+
+    def __init__(self, case):
+        self.case = case
+
+    def __enter__(self):
+        self.old = os.environ.get("CI")
+        if "ci" in self.case:
+            if self.case["ci"] is None:
+                os.environ.pop("CI", None)
+            else:
+                os.environ["CI"] = self.case["ci"]
+
+    def __exit__(self, *a):
+        if self.old is None:
+            os.environ.pop("CI", None)
+        else:
+            os.environ["CI"] = self.old
+
+
+def _state_view(state):
+    return {k: (v if isinstance(v, (str, int, float, bool, type(None))) else type(v).__name__) for k, v in state.items()
+            if k not in ("store", "graphs_by_agent", "agents")}
+
+
+def _res_view(results):
+    return [(r.line, list(getattr(r, "events", None) or [])) for r in results]
+
+
+def _labels(case, want, obs):
+    progs = [_prog(case, i) for i in range(len(case["tasks"]))]
+    ops = [op for i in want for op in progs[i]["ops"]]
+    logged, relog, shared = set(), False, False
+    for i in want:
+        seen = set()
+        for op in progs[i]["ops"]:
+            if op[0] == "log":
+                relog = relog or (op[2] in seen) or (op[2] == "g" and "g" in logged)
+                seen.add(op[2])
+                logged.add(op[2])
+            elif op[0] == "new":
+                seen.discard(op[1])
+                if op[1] == "g":
+                    logged.discard("g")
+    shared = any(op[0] == "log" and op[2] == "g" for op in ops)
+    ids = [a for a, _ in case["tasks"]]
+    flush = sum(1 for d in obs["drains"] if d) >= 2
+    lim = case["limit"]
+    lbs = [f"computed={len(want)}", f"skipped={len(case['tasks']) - len(want)}",
+           f"limit={'default' if lim is None else ('<=150' if lim <= 150 else '>150')}",
+           f"ci={case.get('ci', 'env')}", f"shape={case['shape']}", f"gmode={case.get('gmode', 'random')}",
+           f"gate={case.get('gate') or 'open'}"]
+    lbs += ["flush"] if flush else []
+    lbs += ["limit-derived"] if case.get("limit_kind") else []
+    lbs += ["relog-live-dict"] if relog else []
+    lbs += ["batch-shared-dict"] if shared else []
+    lbs += ["ctx-record"] if any(op[0] == "ctx" for op in ops) else []
+    lbs += ["dup-task"] if len(set(ids)) < len(ids) else []
+    lbs += ["tasks-not-in-id-order"] if ids != sorted(ids) else []
+    lbs += ["cap-binds"] if (not _gate_off(case) and len(want) >= case["workers"] and len(want) < len(ids)) else []
+    lbs += ["no-deltas"] if any(not progs[i]["deltas"] for i in want) else []
+    lbs += ["silent-agent"] if (len(want) >= 2 and any(not any(op[0] in ("log", "ctx") for op in progs[i]["ops"]) for i in want)) else []
+    lbs += [f"entry={e}" for e in sorted({op[3] for op in ops if op[0] == "log"} | {op[2] for op in ops if op[0] == "ctx"})]
+    lbs += ["feature-guard"] if any(op[0] == "log" and op[4] is not None for op in ops) else []
+    lbs += ["nested-edit"] if any(op[0] == "nest" for op in ops) else []
+    return lbs, flush
 
 
 def check_batch(case, rec=None):
     world.reset_engine_globals()
-    with world.sandbox() as r1:
-        results, exc, st_d, computed, left_on = run_driver(case, r1)
-        logs_d = observe.read_tree(r1, "logs")
-        snaps_d = {k: v for k, v in observe.read_tree(r1, "snap").items() if not k.endswith(".meta")}
-    with world.sandbox() as r2:
-        lines_ref, st_r, sel = run_reference(case, r2)
-        logs_r = observe.read_tree(r2, "logs")
-        snaps_r = {k: v for k, v in observe.read_tree(r2, "snap").items() if not k.endswith(".meta")}
+    with _ci_env(case):
+        with _sandbox() as r1:
+            results, exc, st_d, obs = run_driver(case, r1)
+            logs_d = observe.read_tree(r1, "logs")
+            snaps_d = {k: v for k, v in observe.read_tree(r1, "snap").items() if not k.endswith(".meta")}
+        with _sandbox() as r2:
+            lines_ref, st_r, want, exc_r = run_reference(case, r2)
+            logs_r = observe.read_tree(r2, "logs")
+            snaps_r = {k: v for k, v in observe.read_tree(r2, "snap").items() if not k.endswith(".meta")}
+    off = _gate_off(case)
+    names = lambda idxs: [f"{i}:{case['tasks'][i][0]}" for i in idxs]  # noqa: E731
+    if obs["bad"]:
+        raise Violation(f"turn function called with {obs['bad']}, not a pending task of the batch {case['tasks']}", case, "compute-args")
     # selection: compute only for a pairwise-disjoint greedy selection, in task order
-    want_computed = [a for a, _ in case["tasks"] if a in sel]
-    if computed != want_computed:
-        raise Violation(f"compute phase ran for {computed}, independent selection in task order is {want_computed} "
-                        f"(graph sets {case['gsets']}, workers {case['workers']})", case, "selection")
+    if obs["computed"] != want:
+        raise Violation(f"compute phase ran for tasks {names(obs['computed'])}, "
+                        f"{'the plain loop runs' if off else 'independent selection in task order is'} {names(want)} "
+                        f"(graph sets {case['gsets']}, workers {case['workers']}, gate {case.get('gate')})", case, "selection")
+    if any(d == off for d in obs["dry"]):
+        raise Violation(f"dry-run flags seen by the turn function {obs['dry']} with gate {case.get('gate') or 'open'}: a batch computes "
+                        f"in dry-run mode, the plain loop runs whole turns", case, "dry-run-contract")
+    if not off and any(obs["live"]):
+        raise Violation("a batch compute phase was handed the live state object instead of a read-only snapshot", case, "compute-on-live-state")
+    if exc_r is not None:
+        # a compute phase raises: the sequential loop raises there; the driver must raise the same error
+        if exc is None or not isinstance(exc, ComputeBoom) or str(exc) != str(exc_r):
+            raise Violation(f"compute phase of task {names(want[-1:])} raises {exc_r!r}; the driver "
+                            f"{'returned ' + repr(_res_view(results)) if exc is None else 'raised ' + repr(exc)}", case, "compute-error")
+        for name in sorted(set(logs_d) | set(logs_r)):
+            d_, r_ = logs_d.get(name) or b"", logs_r.get(name) or b""
+            if (d_ != r_) if off else (not r_.startswith(d_)):
+                raise Violation(f"{name} after a failing compute phase: driver wrote {d_[:300]!r}, sequential loop {r_[:300]!r}", case,
+                                f"compute-error-log:{name.split('.')[0]}")
+        dc, rc = st_d["store"].calls, st_r["store"].calls
+        if (dc != rc) if off else (dc != rc[:len(dc)]):
+            raise Violation(f"store calls after a failing compute phase {dc} vs sequential {rc}", case, "compute-error-state")
+        if rec is not None:
+            lbs, _ = _labels(case, want, obs)
+            rec.case(nontrivial=False, labels=lbs + ["compute-raises"])
+        return
     if exc is not None:
         if str(exc) == "LOG_STAGING_BACKPRESSURE" and rec is not None and rec.is_known("stager-limit-below-record"):
             rec.label("known:stager-limit-below-record")
             return
         raise Violation(f"driver raised {type(exc).__name__}: {exc} (staging limit {case['limit']})", case,
                         "backpressure-escapes" if "BACKPRESSURE" in str(exc) else "driver-raises")
-    if left_on:
+    if obs["left_on"]:
         raise Violation("log staging still enabled after the batch", case, "staging-left-on")
-    got_lines = [r.line for r in results]
-    if got_lines != lines_ref:
-        raise Violation(f"per-agent results {got_lines} != sequential {lines_ref}", case, "results")
+    want_res = [(ln, []) for ln in lines_ref]
+    if _res_view(results) != want_res:
+        raise Violation(f"per-agent results {_res_view(results)} != sequential {want_res}", case, "results")
     for name in sorted(set(logs_d) | set(logs_r)):
         if logs_d.get(name) != logs_r.get(name):
             raise Violation(f"{name}: driver wrote {(logs_d.get(name) or b'')[:300]!r}, sequential loop {(logs_r.get(name) or b'')[:300]!r} "
-                            f"(staging limit {case['limit']})", case, f"log:{name.split('.')[0]}")
+                            f"(staging limit {case['limit']}, CI={case.get('ci', 'env')})", case, f"log:{name.split('.')[0]}")
     if snaps_d != snaps_r:
-        raise Violation("snapshot bodies differ from the sequential loop", case, "snapshots")
+        raise Violation(f"snapshot files/bodies differ from the sequential loop: {sorted(snaps_d)} vs {sorted(snaps_r)}", case, "snapshots")
     if st_d.get("version_etag") != st_r.get("version_etag") or st_d["store"].calls != st_r["store"].calls:
         raise Violation(f"final state differs: version {st_d.get('version_etag')} vs {st_r.get('version_etag')}, store calls "
                         f"{st_d['store'].calls} vs {st_r['store'].calls}", case, "state")
+    if _state_view(st_d) != _state_view(st_r):
+        raise Violation(f"final state differs: {_state_view(st_d)} vs {_state_view(st_r)}", case, "state-keys")
     if rec is not None:
-        # did a back-pressure flush happen?  (replay the estimate arithmetic on the staged records)
-        flush = False
-        if case["limit"] is not None:
-            tot = 0
-            for a in want_computed:
-                for stream, rec_ in case["payloads"][a]["logs"]:
-                    e = _est(os.path.basename(stream), rec_)
-                    if tot + e > case["limit"]:
-                        flush, tot = True, 0
-                    tot += e
-        nt = len(want_computed) >= 2 and flush
-        rec.case(nontrivial=nt, dig=digest(case) if nt else None,
-                 labels=[f"computed={len(want_computed)}", f"skipped={len(case['tasks']) - len(want_computed)}"] + (["flush"] if flush else []) +
-                        [f"limit={'default' if case['limit'] is None else ('<=150' if case['limit'] <= 150 else '>150')}"],
+        lbs, flush = _labels(case, want, obs)
+        nt = len(want) >= 2 and flush
+        rec.case(nontrivial=nt, dig=digest(case) if nt else None, labels=lbs,
                  sample={"tasks": case["tasks"], "gsets": case["gsets"], "limit": case["limit"], "workers": case["workers"],
-                         "logs": {a: [(s, {k: (v if len(str(v)) < 40 else str(v)[:20] + '...') for k, v in r_.items()}) for s, r_ in p["logs"]][:3]
-                                  for a, p in list(case["payloads"].items())[:3]}} if nt else None)
+                         "ci": case.get("ci", "env"), "shape": case["shape"],
+                         "ops": [[[(x if len(str(x)) < 40 else str(x)[:20] + '...') for x in op] for op in _prog(case, i)["ops"][:6]]
+                                 for i in want[:3]]} if nt else None)
 
 
 def sub_contract(rec, seed, shard, nshards, n=150, shrink=True):
@@ -256,7 +615,7 @@ def check_real(case, rec=None):
     w = {"graphs": case["graphs"], "eps": case["eps"], "agents": {a: [f"g{a}"] for a in case["agents"]}}
 
     world.reset_engine_globals()
-    with world.sandbox() as r2:
+    with _sandbox() as r2:
         eng = observe.Engine(copy.deepcopy(w), r2)
         cfg = eng.cfg(over)
         seq_lines = []
@@ -268,7 +627,7 @@ def check_real(case, rec=None):
         seq_logs = observe.canonical(eng.logs())
         seq_state = observe.state_digest(eng.state)
     world.reset_engine_globals()
-    with world.sandbox() as r1:
+    with _sandbox() as r1:
         eng = observe.Engine(copy.deepcopy(w), r1)
         cfg = eng.cfg(over)
         eng.state["graphs_by_agent"] = {a: [f"g{a}"] for a in case["agents"]}
